@@ -18,6 +18,6 @@ for pid in sys.argv[1:]:
     gone = [f for f in data["findings"] if f["key"] not in seen]
     data["findings"] = keep
     json.dump(data, open(fp, "w"), indent=1)
-    with open(f"/verif/known_findings.d/{pid}_removed.json", "w") as fh:
+    with open(f"/verif/known_findings.d/{pid}_removed.txt", "w") as fh:
         json.dump(gone, fh, indent=1)
     print(pid, "rcs", rcs, "kept", len(keep), "removed", len(gone))
